@@ -216,6 +216,68 @@ def r4_dispatch(ck, cx):
     ck.ob('R4', er.qn, 'ExceptionOffset = 0x80', off == EXCEPTION_FLAG, detail='exception-offset %r' % off, loc=er.loc)
 
 
+def r13_length_alone_never_refuses(ck, cx, rule='R13'):
+    """The decoders may refuse a PDU for what its function code is -- never for how long it is: every length from 1 to 253
+    bytes is legal (FC 21 and FC 43/14 fill the PDU completely).  A path of decode() / _helper that refuses (raises, or returns
+    None) before the function table was consulted, under conditions that speak only about len(data), is evaluated for every
+    legal length; one satisfying length is a finding."""
+    ck.rule(rule, 'the decoders refuse no PDU for its length alone: a guard on len(data) placed before the function-table lookup admits every legal PDU length 1..253')
+    n = 0
+    for dn in ('ServerDecoder', 'ClientDecoder'):
+        d = cx.idx.cls('pymodbus.factory.' + dn)
+        for mname in ('decode', '_helper'):
+            h = cx.method(d, mname)
+            if h is None or len(h.params) < 2:
+                continue
+            ck.saw('functions', h.qn)
+            data = h.params[1]
+            ln = 'len(%s)' % data
+            for p in cx.enum(h, d, max_depth=0):
+                annotate(p, heap=False)
+                n += 1
+                conds, consulted, handled = [], False, False
+                for ev in p.ev:
+                    sub = getattr(ev, '_sub', None)
+                    if ev.kind == 'handler':
+                        handled = True
+                    if sub is not None and ('__lookup' in U(sub) or '_helper(' in U(sub)):
+                        consulted = True
+                        break
+                    if ev.kind == 'cond' and sub is not None:
+                        conds.append((sub, ev.a, ev))
+                if consulted or handled or not conds:
+                    continue
+                ex = p.exit if isinstance(p.exit, tuple) else (p.exit, None)
+                refuses = ex[0] == 'exc' or (ex[0] == 'return' and (ex[1] is None or (isinstance(ex[1], ast.Constant) and ex[1].value is None)))
+                if not refuses:
+                    continue
+                if not all(ln in U(c) and {x.id for x in ast.walk(c) if isinstance(x, ast.Name)} <= {data, 'len', 'Defaults'} for c, _, _ in conds):
+                    continue
+                bad = None
+                for L in range(1, 254):
+                    ok = True
+                    for c, pol, _ in conds:
+                        class _S(ast.NodeTransformer):
+                            def visit_Call(self, node):
+                                if U(node) == ln:
+                                    return ast.Constant(value=L)
+                                return self.generic_visit(node)
+                        import copy
+                        t = _S().visit(copy.deepcopy(c))
+                        ast.fix_missing_locations(t)
+                        v = cx.ce.try_ev(t, h.mod, d, default=None)
+                        if v is None or bool(v) != bool(pol):
+                            ok = False
+                            break
+                    if ok:
+                        bad = L
+                ck.ob(rule, h.qn, 'length guard `%s` admits every legal PDU' % ' and '.join(('' if pol else 'not ') + U(c)[:40] for c, pol, _ in conds), bad is None,
+                      detail='length-guard-refuses-legal-pdu', loc=cx.floc(h, conds[-1][2].node),
+                      message='%s.%s refuses a PDU of %s bytes (function code included) whatever its function code: a completely filled PDU (253 bytes: FC 21 with data length 0xFB, '
+                              'FC 43/14 with 246 object bytes) is legal and must decode to its message type' % (dn, mname, bad))
+    ck.floor(rule, n, 6, 'paths of the decoders\' decode / _helper')
+
+
 def shared_layout_findings(ck, cx, rule, class_names, why, rules=('R2', 'R3')):
     """re-report, under `rule` of another property, the C01 R2/R3 layout findings of the named classes"""
     if getattr(ck, 'no_shares', False):
@@ -472,6 +534,7 @@ def run(ck, tier):
     ck.guard(r1_tables, ck, cx)
     ck.guard(r2_r3_layouts, ck, cx)
     ck.guard(r4_dispatch, ck, cx)
+    ck.guard(r13_length_alone_never_refuses, ck, cx)
     ck.guard(r6_constructor_keeps_zero, ck, cx)
     ck.guard(r7_register_keeps_tables, ck, cx)
     ck.guard(r9_sub_tables_distinct, ck, cx)
